@@ -119,6 +119,8 @@ package otto
 //@ func toIntegerFloat
 //@   props C05
 //@   requires jsValue(value)
+//@   pure_if value.kind != valueObject
+//@   throws value.kind == valueObject
 //@   ensures !isNaN(result)
 //@   ensures isGoNumber(value) ==> sameFloat(result, es5ToInteger(numOf(value)))
 
@@ -1685,6 +1687,14 @@ package otto
 //@   ensures result != nil && result == f.thisObj
 //@   ensures old(f.thisObj) != nil ==> result == old(f.thisObj)
 
+//@ func (*FunctionCall).thisClassObject
+//@   props C06 C12
+//@   nosafety
+//@   requires f != nil && f.runtime != nil
+//@   writes_only_at f.thisObj
+//@   preserves FunctionCall.runtime, FunctionCall.ArgumentList, FunctionCall.This, FunctionCall.eval, FunctionCall.Otto, elems(Value), object.value, object.class
+//@   ensures result != nil && result.class == class
+
 // Shared prologue of the seventeen setters (15.9.5.28-40): an invalid date stays invalid
 // (nothing is returned to work on); a missing, NaN or infinite field makes the receiver
 // invalid; otherwise min(limit, argc) >= 1 integer fields are handed back together with
@@ -1750,6 +1760,8 @@ package otto
 //@   props C15
 //@   nosafety
 //@   requires jsValue(v)
+//@   pure_if v.kind != valueObject
+//@   throws v.kind == valueObject
 //@   ensures isGoNumber(v) ==> (result <==> isNaN(numOf(v)))
 
 // Growing a bridged Go slice through its length keeps the existing elements: they are
@@ -1759,3 +1771,95 @@ package otto
 //@   nosafety
 //@   requires o != nil && jsValue(value)
 //@   at_call reflect.Copy : arg1 == o.value
+
+// ---------------------------------------------------------------------------
+// value_string.go, builtin_number.go, builtin.go: numbers and text (C06, guards only)
+// ---------------------------------------------------------------------------
+
+// ToString of a double (9.8.1): NaN and the infinities by name; the plain decimal layout
+// ('f') exactly for 1e-6 <= |x| < 1e21, the exponent layout ('g') otherwise.  The digits
+// are strconv's (shortest round-trip, assumed) and are not specified here.
+//@ func floatToString
+//@   props C06
+//@   safety C02 C06
+//@   nothrow
+//@   pure
+//@   ensures isNaN(value) ==> result == "NaN"
+//@   ensures isInf(value) && value > 0.0 ==> result == "Infinity"
+//@   ensures isInf(value) && value < 0.0 ==> result == "-Infinity"
+//@   at_call strconv.FormatFloat : (arg1 == 'f') <==> (fabs(value) >= 0.000001 && fabs(value) < 1000000000000000000000.0)
+//@   at_call strconv.FormatFloat : sameFloat(arg0, value) && arg2 == -1
+
+// Number.prototype.toFixed / toExponential / toPrecision / toString(radix): RangeError
+// exactly outside 0..20, 0..20, 1..21 and 2..36 (checked on ToInteger of the argument);
+// a NaN receiver gives "NaN" (for toExponential/toPrecision before the range check, for
+// toFixed after it, as 15.7.4.5-7 order the steps); an infinite receiver is named.
+//@ spec intArgOutside(call FunctionCall, lo float64, hi float64) bool = es5ToInteger(numOf(argOf(call, 0))) < lo || es5ToInteger(numOf(argOf(call, 0))) > hi
+//@ spec intArgInside(call FunctionCall, lo float64, hi float64) bool = es5ToInteger(numOf(argOf(call, 0))) >= lo && es5ToInteger(numOf(argOf(call, 0))) <= hi
+//@ func builtinNumberToFixed
+//@   props C06
+//@   nosafety
+//@   requires wfCall(call) && argsOK(call.ArgumentList) && call.runtime != nil && isGoNumber(call.This)
+//@   requires isGoNumber(argOf(call, 0)) && jsValue(argOf(call, 0))
+//@   stable call.ArgumentList
+//@   pure_calls toIntegerFloat, (Value).IsNaN, (Value).float64, (Value).string
+//@   throws intArgOutside(call, 0.0, 20.0)
+//@   ensures !intArgOutside(call, 0.0, 20.0)
+//@   ensures intArgInside(call, 0.0, 20.0) && isNaN(numOf(call.This)) ==> result.kind == valueString && is(result.value, string) && result.value.(string) == "NaN"
+//@ func builtinNumberToExponential
+//@   props C06
+//@   nosafety
+//@   requires wfCall(call) && argsOK(call.ArgumentList) && call.runtime != nil && isGoNumber(call.This)
+//@   requires isGoNumber(argOf(call, 0)) && jsValue(argOf(call, 0))
+//@   stable call.ArgumentList
+//@   pure_calls toIntegerFloat, (Value).IsNaN, (Value).float64, (Value).string
+//@   throws !isNaN(numOf(call.This)) && !isInf(numOf(call.This)) && intArgOutside(call, 0.0, 20.0)
+//@   ensures isNaN(numOf(call.This)) || isInf(numOf(call.This)) || !intArgOutside(call, 0.0, 20.0)
+//@   ensures isNaN(numOf(call.This)) ==> result.kind == valueString && is(result.value, string) && result.value.(string) == "NaN"
+//@ func builtinNumberToPrecision
+//@   props C06
+//@   nosafety
+//@   requires wfCall(call) && argsOK(call.ArgumentList) && call.runtime != nil && isGoNumber(call.This)
+//@   requires isGoNumber(argOf(call, 0)) && jsValue(argOf(call, 0))
+//@   stable call.ArgumentList
+//@   pure_calls toIntegerFloat, (Value).IsNaN, (Value).float64, (Value).string
+//@   throws !isNaN(numOf(call.This)) && !isInf(numOf(call.This)) && intArgOutside(call, 1.0, 21.0)
+//@   ensures isNaN(numOf(call.This)) || isInf(numOf(call.This)) || !intArgOutside(call, 1.0, 21.0)
+//@   ensures isNaN(numOf(call.This)) ==> result.kind == valueString && is(result.value, string) && result.value.(string) == "NaN"
+
+// the primitive a wrapper object holds (reads only; String() of a string object is pure)
+//@ func (*object).primitiveValue
+//@   trusted
+//@   pure
+//@   nothrow
+//@   requires o != nil
+
+// Number.prototype.toString(radix): RangeError exactly for a radix outside 2..36.
+//@ func builtinNumberToString
+//@   props C06
+//@   nosafety
+//@   requires wfCall(call) && argsOK(call.ArgumentList) && call.runtime != nil
+//@   requires isGoNumber(argOf(call, 0)) && jsValue(argOf(call, 0))
+//@   stable call.ArgumentList
+//@   pure_calls toIntegerFloat
+//@   ensures !intArgOutside(call, 2.0, 36.0)
+
+// parseInt: a leading '-' negates the result on both conversion paths (64-bit and the
+// float accumulation used when the digits do not fit), digits are accumulated most
+// significant first in the given radix, and every index into the text is in bounds.
+//@ func digitValue
+//@   props C06
+//@   safety C02 C06
+//@   ensures 0 <= result && result <= 36
+//@   ensures chr >= '0' && chr <= '9' ==> result == int(chr - '0')
+//@   ensures chr >= 'a' && chr <= 'z' ==> result == int(chr - 'a') + 10
+//@   ensures chr >= 'A' && chr <= 'Z' ==> result == int(chr - 'A') + 10
+//@ func builtinGlobalParseInt
+//@   props C06
+//@   safety C02 C06
+//@   requires wfCall(call) && argsOK(call.ArgumentList) && call.runtime != nil
+//@   stable call.ArgumentList
+//@   invariant@1 0 <= index && index <= len(input)
+//@   invariant@2 value >= 0.0
+//@   at_call float64Value : negative ==> !(arg0 > 0.0)
+//@   at_call float64Value : !negative ==> !(arg0 < 0.0)
